@@ -470,6 +470,14 @@ def _g2(ctx: Context) -> None:
                 (dotted(c.func) or "").endswith("create_task") for c in body_calls
             ):
                 per = not any(isinstance(x, (ast.Break, ast.Return, ast.Continue)) for x in ast.walk(n.ast))
+    # the same as a comprehension (the loader also spells a plain append loop this way): unfiltered, one task per element
+    for x in ast.walk(af.node):
+        if isinstance(x, (ast.ListComp, ast.SetComp, ast.GeneratorExp)) and len(x.generators) == 1:
+            g = x.generators[0]
+            calls = [c for y in ast.walk(x.elt) if isinstance(y, ast.Call) for c in [y]]
+            if ("transports" in ast.unparse(g.iter) and any(isinstance(c.func, ast.Attribute) and c.func.attr == "async_find" for c in calls)
+                    and any((dotted(c.func) or "").endswith("create_task") for c in calls)):
+                per = per or not g.ifs
     ck.check("C19.G2", per, "Controller.async_find: one finder task per transport",
              f"{ctx.fkey(af)}:per-transport", "Controller.async_find does not start a finder for every transport", af.loc())
     # finally: cancel + await the rest
@@ -708,18 +716,26 @@ def _k1(ctx: Context) -> None:
             return t[0] == "call" and t[1][0] == "glob" and t[1][1].endswith("." + name) and len(t[2]) == 1 and inner(t[2][0])
         return p
 
+    from ..engine.terms import byte_field
+
+    def field(off, size):
+        """the unsigned little-endian integer in data[off:off+size], however it is read (struct unpack / unpack_from /
+        int.from_bytes / a single indexed byte)"""
+        def p(t):
+            bf = byte_field(t)
+            return bf is not None and bf[0] == data and bf[1] == off and bf[2] == size and bf[3] in ("little", "any") and not bf[4]
+        return p
+
     rows = [
         ("status_flags", wrapped("StatusFlags", lambda t: t == ("sub", data, ("const", 2))), "StatusFlags(data[2])"),
-        ("category", wrapped("Categories", unpacked(0)), "Categories(unpack(data[9:15])[0])"),
-        ("state_num", unpacked(1), "unpack(data[9:15])[1]"),
-        ("config_num", unpacked(2), "unpack(data[9:15])[2]"),
+        ("category", wrapped("Categories", field(9, 2)), "Categories(little-endian u16 at data[9:11])"),
+        ("state_num", field(11, 2), "little-endian u16 at data[11:13]"),
+        ("config_num", field(13, 1), "data[13]"),
     ]
-    for field, pred, want in rows:
-        t = kw.get(field, ("unknown", "missing"))
-        ck.check("C19.K1", pred(t), f"BLE: {field} = {want}", f"{ctx.fkey(f)}:field:{field}",
-                 f"HomeKitAdvertisement: {field} is {show(t, 120)}, expected {want}", ctx.loc(f, rn))
-    ck.check("C19.K1", fmts == {"<HHBB"}, "BLE: ACID/GSN/CN/CV are unpacked little-endian as <HHBB",
-             f"{ctx.fkey(f)}:hhbb-format", f"the category / state number / config number are unpacked with format(s) {sorted(fmts)}", f.loc())
+    for fld, pred, want in rows:
+        t = kw.get(fld, ("unknown", "missing"))
+        ck.check("C19.K1", pred(t), f"BLE: {fld} = {want}", f"{ctx.fkey(f)}:field:{fld}",
+                 f"HomeKitAdvertisement: {fld} is {show(t, 120)}, expected {want}", ctx.loc(f, rn))
     idt = kw.get("id", ("unknown", ""))
     ok_id = (
         idt[0] == "call" and idt[1][0] == "attr" and idt[1][2] == "lower"
